@@ -40,11 +40,34 @@ def check(run):
     for fn in ("_calculate_edge_face_difference", "_calculate_edge_node_difference"):
         f = P.func(f"{GRAD}:{fn}")
         rets = [r for r in ast.walk(f.node) if isinstance(r, ast.Return)]
+        from .. import symx
+        from ..loader import FuncInfo
         for i, r in enumerate(rets):
             c = f"{f.key}:return#{i}:abs"
             v = r.value
-            if isinstance(v, ast.Call) and (dotted(v.func) or [""])[-1] in ("abs", "absolute", "fabs"):
+
+            def is_abs(e, depth=0):
+                """abs(...) directly, a local bound to it, or a call of a package function all of whose returns are"""
+                if isinstance(e, ast.Call) and (dotted(e.func) or [""])[-1] in ("abs", "absolute", "fabs"):
+                    return True
+                if isinstance(e, ast.Call) and depth < 2:
+                    t = P.resolve_expr(f.module, e.func, f)
+                    if isinstance(t, FuncInfo):
+                        rr = [x for x in ast.walk(t.node) if isinstance(x, ast.Return) and x.value is not None]
+                        return bool(rr) and all(is_abs(x.value, depth + 1) for x in rr)
+                return False
+            if is_abs(v):
                 run.holds("F-PATH/abs-difference", c, where(f, r), "returns the absolute difference")
+            elif isinstance(v, ast.Name):
+                from ..astutil import LocalDefs
+                ld = LocalDefs(f.node)
+                vals = [x for x, _i, _l in ld.defs.get(v.id, [])] + list(ld.stores.get(v.id, []))
+                if any(is_abs(x) for x in vals):
+                    run.holds("F-PATH/abs-difference", c, where(f, r), "returns the absolute difference")
+                elif vals and all(isinstance(x, ast.BinOp) or (isinstance(x, ast.Call) and (dotted(x.func) or [""])[-1] in ("zeros", "empty", "full", "zeros_like")) for x in vals):
+                    run.violation("F-PATH/abs-difference", c, where(f, r), f"{fn} returns {v.id}, a plain difference: signed, not the absolute difference")
+                else:
+                    run.incomplete("F-PATH/abs-difference", c, where(f, r), f"{fn} returns the local {v.id}; whether it holds absolute values is not followed")
             else:
                 run.violation("F-PATH/abs-difference", c, where(f, r), f"{fn} returns {norm(v)[:60]}: signed, not the absolute difference")
     # reductions along the last axis in rank-polymorphic helpers
